@@ -110,7 +110,7 @@ def _child_exit_outcome(model, ci, h, status, status_attr, RA):
     fields.update(_init_fields(ci))
     fields.update({a: f"upstream address self.{a}" for a in upstream})
     fields[status_attr] = status
-    me = _Obj(name="self", **{k: _snap(v) for k, v in fields.items()})
+    me = _table_fields(model.table, ci, _Obj(name="self", **{k: _snap(v) for k, v in fields.items()}))
     note = _Obj(cls="ChildActorExited", name="the exit notification", childAddress="address of the child that exited")
     sim = _Sim(model.table, ci, me)
     try:
@@ -118,6 +118,7 @@ def _child_exit_outcome(model, ci, h, status, status_attr, RA):
     except _Raised as x:
         return "nothing", x.node if isinstance(x.node, ast.AST) else h, f"raises {x.name} (a guarded handler would report that to the sender of the notification, i.e. to nobody)"
     best = ("nothing", h, f"no send to an upstream address ({upstream}) on the path taken in status [{status}]")
+    doubt = _unknown_call(sim.trace)
     for e in sim.trace:
         if e.name != "send" or e.recv is not me or len(e.args) < 2 or not any(_eq(e.args[0], f"upstream address self.{a}") for a in upstream):
             continue
@@ -125,6 +126,8 @@ def _child_exit_outcome(model, ci, h, status, status_attr, RA):
             return "failure", e.node, f"send({e.args[0]}, BenchmarkFailure) in status [{status}]"
         if e.args[1] is note and best[0] == "nothing":
             best = ("forward", e.node, f"forwards the notification to the {e.args[0]}")
+    if best[0] == "nothing" and doubt is not None:
+        raise _Cannot(f"`{short(doubt.node, 60)}` calls a value the simulation does not know (the reaction to the exit may happen there)")
     return best
 
 
@@ -199,10 +202,45 @@ class _Sym:
     __bool__ = __len__ = __iter__ = __lt__ = __le__ = __gt__ = __ge__ = __contains__ = __getitem__ = _no
 
     def __hash__(self):
-        return hash(self.dotted)
+        return hash(self.last)
 
     def __repr__(self):
         return f"<{self.dotted}>"
+
+
+class _ClsSym(_Sym):
+    """the class of a stand-in object (type(msg), msg.__class__): equal to a global that names the same class, however that global is spelt
+    (`thespian.actors.WakeupMessage`, `actors.WakeupMessage`, `WakeupMessage`); _Sym hashes by the last component so that a table keyed by classes finds it"""
+
+    def __eq__(self, o):
+        if not isinstance(o, _Sym):
+            raise _Cannot(f"comparison of the class `{self.dotted}` with {o!r:.40}")
+        return o.last == self.last
+
+    def __ne__(self, o):
+        return not self.__eq__(o)
+
+    __hash__ = _Sym.__hash__
+
+
+class _Bound:
+    """a routine used as a VALUE (an entry of a dispatch table, a callback): a method of the simulated class (`self.m`, getattr(self, "m"); unbound=True: a function named in
+    the class body, called with the actor as first argument), a lambda or a local function (closure = the environment it was defined in). Calling it runs its body."""
+
+    def __init__(self, func, unbound=False, closure=None):
+        self.func, self.unbound, self.closure = func, unbound, closure
+
+    def __eq__(self, o):
+        return isinstance(o, _Bound) and o.func is self.func and o.unbound == self.unbound
+
+    def __ne__(self, o):
+        return not self.__eq__(o)
+
+    def __hash__(self):
+        return hash(id(self.func))
+
+    def __repr__(self):
+        return f"<routine {getattr(self.func, 'name', 'lambda')}>"
 
 
 class _Obj:
@@ -265,6 +303,7 @@ _SIM_BINOPS = {ast.Add: lambda a, b: a + b, ast.Sub: lambda a, b: a - b, ast.Mul
 _SIM_CMP = {ast.Eq: lambda a, b: a == b, ast.NotEq: lambda a, b: a != b, ast.Lt: lambda a, b: a < b, ast.LtE: lambda a, b: a <= b, ast.Gt: lambda a, b: a > b,
             ast.GtE: lambda a, b: a >= b, ast.Is: lambda a, b: a is b, ast.IsNot: lambda a, b: a is not b, ast.In: lambda a, b: a in b, ast.NotIn: lambda a, b: a not in b}
 _CATCH_ALL = {"Exception", "BaseException"}
+_GLOBALS_OF = {}  # id(module) -> {global name: [module-level statements that bind it]}
 
 
 class _Sim:
@@ -279,6 +318,7 @@ class _Sim:
         self.steps = 0
         self.depth = 0
         self.current = []  # exceptions being handled (for a bare `raise`)
+        self.modules = []  # module of the routine being interpreted (innermost last): where its global names are looked up
 
     # -- entry ---------------------------------------------------------------------------------------------------------------------------------------------
     def call_method(self, func, args=(), kwargs=None):
@@ -289,12 +329,14 @@ class _Sim:
             # an operation on stand-in values that the interpreter does not model: the code is "not recognised", never a verdict and never a crash of the check
             raise _Cannot(f"the simulation of {func.name} failed ({type(x).__name__}: {x})")
 
-    def _invoke(self, func, args, kwargs, bound):
+    def _invoke(self, func, args, kwargs, bound, closure=None):
         from sa.classes import decorator_names
         if self.depth > 8:
             raise _Cannot(f"call depth exceeded at {func.name}")
         if any(isinstance(n, (ast.Yield, ast.YieldFrom, ast.Await)) for n in walk_body(func)):
             raise _Cannot(f"{func.name} is a generator / coroutine")
+        if closure is not None and any(isinstance(n, (ast.Nonlocal, ast.Global)) for n in walk_body(func)):
+            raise _Cannot(f"the local function {func.name} rebinds names of the enclosing scope")
         a = func.args
         if a.vararg is not None or a.kwarg is not None:
             raise _Cannot(f"{func.name} takes *args / **kwargs")
@@ -304,6 +346,7 @@ class _Sim:
             args = args[1:]
         if len(args) > len(names):
             raise _Raised("TypeError", func)
+        outer = dict(closure) if closure is not None else {}  # a lambda / local function sees the names of the scope it was defined in (as they are when it is called)
         env = dict(zip(names, args))
         defaults = dict(zip(names[len(names) - len(a.defaults):], a.defaults))
         for k, v in kwargs.items():
@@ -314,20 +357,46 @@ class _Sim:
             if k not in env:
                 if k not in defaults:
                     raise _Raised("TypeError", func)
-                env[k] = self.val(defaults[k], {})
+                env[k] = self.val(defaults[k], dict(outer))
         for x, d in zip(a.kwonlyargs, a.kw_defaults):
             if x.arg not in env:
                 if d is None:
                     raise _Raised("TypeError", func)
-                env[x.arg] = self.val(d, {})
+                env[x.arg] = self.val(d, dict(outer))
+        env = {**outer, **env}
         self.depth += 1
+        self.modules.append(getattr(func, "_module", None) or (self.modules[-1] if self.modules else None))
         try:
             self.run(func.body, env)
         except _Ret as r:
             return r.value
         finally:
             self.depth -= 1
+            self.modules.pop()
         return None
+
+    def _global(self, name):
+        """what a global name of the module being interpreted stands for, where the simulation can tell: a module-level display (a dispatch table moved to module level:
+        evaluated, its names are globals again) or a function of the module. None: a name whose value is not known (it stays a symbol)."""
+        mod = (self.modules[-1] if self.modules else None) or self.ci.module
+        cache = _GLOBALS_OF.setdefault(id(mod), {})
+        if not cache:
+            cache[""] = mod  # keeps the module alive as long as its id is a key
+            for st in getattr(getattr(mod, "tree", None), "body", []):
+                for nm in ([t.id for t in st.targets if isinstance(t, ast.Name)] if isinstance(st, ast.Assign) else [st.target.id] if isinstance(st, ast.AnnAssign)
+                           and st.value is not None and isinstance(st.target, ast.Name) else [st.name] if isinstance(st, (ast.FunctionDef, ast.AsyncFunctionDef, ast.ClassDef)) else []):
+                    cache.setdefault(nm, []).append(st)
+        hits = cache.get(name, [])
+        if len(hits) != 1 or isinstance(hits[0], (ast.AsyncFunctionDef, ast.ClassDef)):
+            return None
+        if isinstance(hits[0], ast.FunctionDef):
+            return hits[0] if not hits[0].decorator_list else None
+        if not isinstance(hits[0].value, (ast.Tuple, ast.List, ast.Dict, ast.Set)):
+            return None
+        try:
+            return self.val(hits[0].value, {})
+        except (_Cannot, _Raised):
+            return None
 
     # -- expressions ---------------------------------------------------------------------------------------------------------------------------------------
     def truth(self, e, env):
@@ -344,14 +413,17 @@ class _Sim:
                 return env[e.id]
             if e.id in _SIM_BUILTINS:
                 return _SIM_BUILTINS[e.id]
+            g_ = self._global(e.id)
+            if g_ is not None and not isinstance(g_, ast.FunctionDef):
+                return g_
             return _Sym(e.id)
         if isinstance(e, ast.Attribute):
             return self._attr(self.val(e.value, env), e.attr)
         if isinstance(e, ast.BoolOp):
             r = None
-            for v in e.values:
+            for i, v in enumerate(e.values):
                 r = self.val(v, env)
-                if bool(r) != isinstance(e.op, ast.And):
+                if i < len(e.values) - 1 and bool(r) != isinstance(e.op, ast.And):  # the last operand is the result as it is (no truth test: it may be unknown)
                     return r
             return r
         if isinstance(e, ast.UnaryOp):
@@ -368,7 +440,16 @@ class _Sim:
             for op, c in zip(e.ops, e.comparators):
                 right = self.val(c, env)
                 try:
-                    if not _SIM_CMP[type(op)](left, right):
+                    if isinstance(op, (ast.Is, ast.IsNot)) and isinstance(left, _Sym) and isinstance(right, _Sym):
+                        same = left == right  # `type(msg) is StopNodes`: two names of the same class / global
+                    elif isinstance(op, (ast.Is, ast.IsNot)) and any(isinstance(x, _ClsSym) for x in (left, right)) and any(isinstance(x, _Opaque) for x in (left, right)):
+                        raise _Cannot(f"identity of a class and the unknown value `{u(e)[:60]}`")
+                    else:
+                        same = None
+                    if same is not None:
+                        if same != isinstance(op, ast.Is):
+                            return False
+                    elif not _SIM_CMP[type(op)](left, right):
                         return False
                 except TypeError:
                     raise _Raised("TypeError", e)
@@ -439,6 +520,8 @@ class _Sim:
                         rec(i + 1, env2)
 
             rec(0, dict(env))
+            if isinstance(e, ast.GeneratorExp):
+                return iter(out)  # consumed once (next(...), any(...), a for loop); the elements were computed eagerly
             return dict(out) if isinstance(e, ast.DictComp) else (set(out) if isinstance(e, ast.SetComp) else out)
         if isinstance(e, ast.NamedExpr):
             v = self.val(e.value, env)
@@ -446,11 +529,52 @@ class _Sim:
             return v
         if isinstance(e, ast.Starred):
             raise _Cannot(f"starred expression `{u(e)[:40]}` outside a call / display")
-        return _Opaque(u(e))  # lambda, await, ...
+        if isinstance(e, ast.Lambda):
+            fd = getattr(e, "_sim_func", None)
+            if fd is None:
+                fd = ast.FunctionDef(name="<lambda>", args=e.args, body=[ast.copy_location(ast.Return(value=e.body), e)], decorator_list=[], returns=None, type_comment=None)
+                ast.copy_location(fd, e)
+                fd._module = getattr(e, "_module", None)
+                e._sim_func = fd
+            return _Bound(fd, closure=env)
+        return _Opaque(u(e))  # await, ...
+
+    def _class_member(self, attr):
+        """what `self.<attr>` is when no field of that name was set: a method of the class (a value that can be stored in a table and called later), the value of a property
+        (its getter is run) or of a class-level assignment (evaluated; the functions of the class body are routines that take the actor as first argument). None: unknown."""
+        from sa.classes import decorator_names
+        m = self.table.method(self.ci, attr)
+        if isinstance(m, ast.FunctionDef):
+            decos = [d.split(".")[-1] for d in decorator_names(m)]
+            if all(d in ("staticmethod", "classmethod") for d in decos):
+                return _Bound(m)
+            if decos and all(d in ("property", "cached_property") for d in decos) and len(params_of(m)) == 1:
+                return self._invoke(m, [self.self_obj], {}, bound=True)
+            return None
+        if m is not None:
+            return None
+        for c in self.table.mro(self.ci):
+            for st in c.node.body:
+                tgts = st.targets if isinstance(st, ast.Assign) else ([st.target] if isinstance(st, ast.AnnAssign) and st.value is not None else [])
+                if any(isinstance(t, ast.Name) and t.id == attr for t in tgts):
+                    env = {n.name: _Bound(n, unbound=True) for n in c.node.body if isinstance(n, ast.FunctionDef) and not n.decorator_list}
+                    return self.val(st.value, env)
+        return None
 
     def _attr(self, v, attr):
         if isinstance(v, _Obj):
+            if v is self.self_obj and attr not in v.fields and attr not in v._unknown:
+                try:
+                    r = self._class_member(attr)
+                except (_Cannot, _Raised):
+                    r = None  # as before: an unknown value (a decision over it is "not recognised")
+                if r is not None:
+                    return r
+            if attr == "__class__" and attr not in v.fields and v.cls is not None:
+                return _ClsSym(v.cls)
             return v.get(attr)
+        if isinstance(v, _ClsSym) and attr in ("__name__", "__qualname__"):
+            return v.last
         if isinstance(v, _Sym):
             return _Sym(f"{v.dotted}.{attr}")
         if isinstance(v, _Opaque):
@@ -471,8 +595,9 @@ class _Sim:
         except TypeError:
             raise _Raised("TypeError", node)
 
-    def _event(self, name, callee, args, kwargs, node, recv=None, default=None):
+    def _event(self, name, callee, args, kwargs, node, recv=None, default=None, unknown_callee=False):
         ev = _Ev(name, callee, list(args), dict(kwargs), node, {k: _snap(v) for k, v in self.self_obj.fields.items()}, recv)
+        ev.unknown_callee = unknown_callee
         self.trace.append(ev)
         if self.fail is not None and self.fail(ev):
             raise _Raised("Exception", node)
@@ -524,6 +649,14 @@ class _Sim:
                     except Exception as x:  # noqa: BLE001 — KeyError, IndexError, ValueError of the container method
                         raise _Raised(type(x).__name__, e)
                     return list(r) if attr in ("items", "keys", "values") else r
+            if isinstance(recv, type) and recv in _SIM_METHODS and (attr in _SIM_METHODS[recv] or (recv is dict and attr == "fromkeys")):
+                try:
+                    r = getattr(recv, attr)(*args, **kwargs)  # dict.fromkeys(keys, v), str.join(sep, xs), list.append(xs, x) ...
+                except _Cannot:
+                    raise
+                except Exception as x:  # noqa: BLE001
+                    raise _Raised(type(x).__name__, e)
+                return list(r) if attr in ("items", "keys", "values") else r
             if recv is None:
                 raise _Raised("AttributeError", e)
             if isinstance(recv, _Sym):
@@ -534,11 +667,24 @@ class _Sim:
         return self._call_value(fv, args, kwargs, e, callee)
 
     def _call_value(self, fv, args, kwargs, e, callee):
+        if isinstance(fv, _Bound):
+            if fv.closure is not None:
+                return self._invoke(fv.func, list(args), kwargs, bound=False, closure=fv.closure)
+            if fv.unbound:
+                if not args or args[0] is not self.self_obj:
+                    raise _Cannot(f"`{u(e)[:60]}`: a function of the class body is called with something else than the actor as its first argument")
+                return self._invoke(fv.func, list(args), kwargs, bound=False)
+            return self._invoke(fv.func, [self.self_obj] + list(args), kwargs, bound=True)
         if isinstance(fv, _Sym) and fv.dotted in _SIM_BUILTINS:
             fv = _SIM_BUILTINS[fv.dotted]
         if isinstance(fv, _Sym):
             if fv.dotted in ("getattr", "hasattr", "isinstance", "type", "id", "callable", "print", "super"):
                 return self._special(fv.dotted, args, kwargs, e)
+            if "." not in fv.dotted and any(a_ is self.self_obj for a_ in list(args) + list(kwargs.values())):
+                # a function of the module that is handed the actor works on its behalf (a handler body moved to module level): followed like a method
+                g_ = self._global(fv.dotted)
+                if isinstance(g_, ast.FunctionDef):
+                    return self._invoke(g_, list(args), kwargs, bound=False)
             mk = (lambda ev: _Obj(cls=fv.dotted, call=ev)) if fv.last[:1].isupper() else None  # CapWords: an instance of that class
             return self._event(fv.last, fv.dotted, args, kwargs, e, default=mk)
         if any(fv is b for b in _SIM_BUILTINS.values()):
@@ -556,15 +702,33 @@ class _Sim:
         if callable(fv) and getattr(fv, "_sim_callback", False):
             return fv(self, args, kwargs, e)
         name = callee.rsplit(".", 1)[-1]
-        return self._event(name, callee, args, kwargs, e)
+        # the callee is a VALUE the simulation does not know (an entry of a table it could not evaluate, the result of another call): recorded, and remembered as a call
+        # that may have done anything (a negative verdict drawn from such a trace is "not recognised", see _unknown_call)
+        return self._event(name, callee, args, kwargs, e, unknown_callee=isinstance(fv, (_Opaque, _Obj)))
 
     def _special(self, name, args, kwargs, e):
         if name == "getattr" and len(args) in (2, 3) and isinstance(args[1], str):
             o = args[0]
             if isinstance(o, _Obj):
+                if o is self.self_obj and args[1] not in o.fields:
+                    try:
+                        r = self._class_member(args[1])
+                    except (_Cannot, _Raised):
+                        r = None
+                    if r is not None:
+                        return r
+                    if self.table.method(self.ci, args[1]) is not None:
+                        return o.get(args[1])  # a member of the class that the simulation does not model: present, value unknown
                 if args[1] in o.fields or len(args) == 2:
                     return o.get(args[1])
                 return args[2]
+            return _Opaque(u(e))
+        if name == "type" and len(args) == 1 and not kwargs:
+            o = args[0]
+            if isinstance(o, _Obj) and o.cls is not None:
+                return _ClsSym(o.cls)
+            if o is None or isinstance(o, (str, int, float, bool, list, tuple, dict, set, frozenset)):
+                return type(o)
             return _Opaque(u(e))
         if name == "hasattr" and len(args) == 2 and isinstance(args[1], str):
             if isinstance(args[0], _Obj):
@@ -757,12 +921,48 @@ class _Sim:
                         o = self.val(t.value, env)
                         if isinstance(o, _Obj):
                             o.fields.pop(t.attr, None)
+            elif isinstance(s, ast.FunctionDef) and not s.decorator_list:
+                env[s.name] = _Bound(s, closure=env)  # a local function: called (directly, through a table) it runs in the scope it was defined in
             elif isinstance(s, (ast.FunctionDef, ast.AsyncFunctionDef, ast.ClassDef)):
                 env[s.name] = _Opaque(f"local definition {s.name}")
+            elif isinstance(s, ast.Match):
+                subject = self.val(s.subject, env)
+                for case in s.cases:
+                    if self._match(case.pattern, subject, env) and (case.guard is None or self.truth(case.guard, env)):
+                        self.run(case.body, env)
+                        break
             elif isinstance(s, (ast.Pass, ast.Assert, ast.Import, ast.ImportFrom, ast.Global, ast.Nonlocal)):
                 pass
             else:
                 raise _Cannot(f"statement kind {type(s).__name__} at line {getattr(s, 'lineno', '?')}")
+
+    def _match(self, p, v, env):
+        """structural pattern matching on stand-in values: class patterns (`case StopNodes():`, keyword sub-patterns over the fields), captures / wildcard, alternatives,
+        values and singletons; anything else is not modelled"""
+        if isinstance(p, ast.MatchAs):
+            if p.pattern is not None and not self._match(p.pattern, v, env):
+                return False
+            if p.name is not None:
+                env[p.name] = v
+            return True
+        if isinstance(p, ast.MatchOr):
+            return any(self._match(x, v, env) for x in p.patterns)
+        if isinstance(p, ast.MatchClass):
+            if p.patterns:
+                raise _Cannot(f"class pattern with positional sub-patterns at line {p.lineno}")
+            if not self._special("isinstance", [v, self.val(p.cls, env)], {}, p):
+                return False
+            for k, sub in zip(p.kwd_attrs, p.kwd_patterns):
+                if not isinstance(v, _Obj):
+                    raise _Cannot(f"class pattern over the fields of `{v!r:.40}`")
+                if not self._match(sub, v.get(k), env):
+                    return False
+            return True
+        if isinstance(p, ast.MatchValue):
+            return bool(_SIM_CMP[ast.Eq](v, self.val(p.value, env)))
+        if isinstance(p, ast.MatchSingleton):
+            return v is p.value
+        raise _Cannot(f"pattern kind {type(p).__name__} at line {getattr(p, 'lineno', '?')}")
 
 
 def _load(t):
@@ -776,6 +976,28 @@ def _callback(name):
         return sim._event(name, name, args, kwargs, e)
     cb._sim_callback = True
     return cb
+
+
+def _unknown_call(*traces, after=-1):
+    """the first recorded call (of the given traces, behind position `after`) whose callee is a value the simulation does not know: the code may have done its work there
+    (a routine looked up in a table that could not be evaluated), so the absence of an effect in the trace proves nothing"""
+    for t in traces:
+        for i, e in enumerate(t or []):
+            if i > after and getattr(e, "unknown_callee", False):
+                return e
+    return None
+
+
+def _sim_ob(chk, rule, inst, ok, site, detail, traces, **kw):
+    """an obligation decided on simulation traces. A NEGATIVE verdict is only reported when every call of the simulated code was followed into the class or is a call of a named
+    API / of a method of another object; if a value the simulation does not know was called, the shape is not recognised (never a falsified obligation)."""
+    if not ok:
+        d = _unknown_call(*traces)
+        if d is not None:
+            chk.unknown(rule, f"{inst}: the simulated code calls `{short(d.node, 60)}`, a value the simulation does not know (what happens there is not followed); "
+                        f"the negative outcome ({detail[:120]}) is therefore not a verdict", d.node)
+            return None
+    return chk.ob(rule, inst, ok, site, detail, **kw)
 
 
 def _eq(a, b):
@@ -1083,6 +1305,41 @@ def _init_fields(ci):
     return out
 
 
+def _holds_routine(v, depth=0):
+    if isinstance(v, _Bound):
+        return True
+    if depth < 3 and isinstance(v, (list, tuple, set, frozenset)):
+        return any(_holds_routine(x, depth + 1) for x in v)
+    if depth < 3 and isinstance(v, dict):
+        return any(_holds_routine(x, depth + 1) for x in list(v.keys()) + list(v.values()))
+    return False
+
+
+def _table_fields(table, ci, me):
+    """dispatch tables that the constructors of the class (base classes first) store on the actor: `self.<attr> = <display that holds routines>` (bound methods, lambdas) is
+    evaluated for the stand-in `me` and stored as its field, so that a handler which looks its work up in such a table is followed into the routines. Anything else that
+    __init__ computes stays unknown (as before)."""
+    for c in reversed(table.mro(ci)):
+        init = c.methods.get("__init__")
+        ps = params_of(init) if init is not None else []
+        if not ps:
+            continue
+        for n in walk_body(init):
+            if not (isinstance(n, ast.Assign) and len(n.targets) == 1 and isinstance(n.targets[0], ast.Attribute) and isinstance(n.targets[0].value, ast.Name)
+                    and n.targets[0].value.id == ps[0]):
+                continue
+            attr = n.targets[0].attr
+            if attr in me.fields or not isinstance(n.value, (ast.Tuple, ast.List, ast.Dict, ast.Set, ast.ListComp, ast.DictComp)):
+                continue
+            try:
+                v = _Sim(table, ci, me).val(n.value, {ps[0]: me})
+            except (_Cannot, _Raised, TypeError, AttributeError, ValueError, KeyError, IndexError):
+                continue
+            if _holds_routine(v):
+                me.fields[attr] = v
+    return me
+
+
 def _children_attr(se_x, RA):
     """the attribute in which the mechanic keeps one slot per awaited node actor: the self attribute that StartEngine sizes by a len(...) over the target hosts"""
     defs = source.local_defs(se_x)
@@ -1252,7 +1509,7 @@ def run(chk):
             fields[status_attr[0]] = status
         if resp_attr is not None:
             fields[resp_attr] = [f"ack-{i}" for i in range(prior)]
-        me = _Obj(name="self", **{k: _snap(v) for k, v in fields.items()})
+        me = _table_fields(model.table, MA, _Obj(name="self", **{k: _snap(v) for k, v in fields.items()}))
         sim = _Sim(model.table, MA, me)
         args = {roles["sender"]: kids[prior], roles["msg"]: MSG, roles["expected"]: expected, roles["new"]: "next", roles["transition"]: _callback("transition()")}
         raised = None
@@ -1287,7 +1544,7 @@ def run(chk):
         for n, prior in ((2, 0), (2, 1), (1, 0), (3, 0), (3, 1), (3, 2), (4, 3)):
             for placeholders in (True, False):
                 cbs, me, raised = ack_run(n, prior, placeholders, resp_attr=resp_attr)
-                rows.append((n, prior, placeholders, cbs, me, raised))
+                rows.append((n, prior, placeholders, cbs, me, raised, _last_trace[0]))
         cbs_x, _, raised_x = ack_run(1, 0, True, status="another status", resp_attr=resp_attr)
     except _Cannot as e:
         chk.unknown("O12.1", f"{f.name} cannot be evaluated on representative acknowledgement counts: {e}", f)
@@ -1300,17 +1557,17 @@ def run(chk):
         early = [r for r in rows if r[1] + 1 < r[0]]
         bad = [r for r in last if r[0] > 1 and len(r[3]) != 1]
         site = next((r[3][0].node for r in rows if r[3]), f)
-        chk.ob("O12.1", "transition() runs exactly once when the last child has responded", not bad, site,
-               f"evaluated for {', '.join(show(r) for r in last if r[0] > 1)}" if not bad else f"acknowledgement {show(bad[0])}: transition() runs {len(bad[0][3])} time(s)"
-               + (f", {bad[0][5]} raised" if bad[0][5] else ""))
+        _sim_ob(chk, "O12.1", "transition() runs exactly once when the last child has responded", not bad, site,
+                f"evaluated for {', '.join(show(r) for r in last if r[0] > 1)}" if not bad else f"acknowledgement {show(bad[0])}: transition() runs {len(bad[0][3])} time(s)"
+                + (f", {bad[0][5]} raised" if bad[0][5] else ""), [r[6] for r in bad if not r[3]])
         bad = [r for r in early if r[3]]
         chk.ob("O12.1", "transition() guarded by responses == children", not bad, bad[0][3][0].node if bad else site,
                f"no transition for {', '.join(show(r) for r in early)}" if not bad else f"acknowledgement {show(bad[0])}: transition() runs although {bad[0][0] - bad[0][1] - 1} child(ren) "
                "have not responded yet")
         bad = [r for r in last if r[0] == 1 and len(r[3]) != 1]
-        chk.ob("O12.1", "this response is appended before it is counted", not bad, site,
-               "a single child: its acknowledgement is the one that completes the count" if not bad else f"a single child acknowledges: transition() runs {len(bad[0][3])} time(s) "
-               "(the response being handled is not part of the count)")
+        _sim_ob(chk, "O12.1", "this response is appended before it is counted", not bad, site,
+                "a single child: its acknowledgement is the one that completes the count" if not bad else f"a single child acknowledges: transition() runs {len(bad[0][3])} time(s) "
+                "(the response being handled is not part of the count)", [r[6] for r in bad if not r[3]])
         bad = [r for r in rows for e in r[3] if not (isinstance(e.state.get(resp_attr), list) and not e.state.get(resp_attr))]
         chk.ob("O12.1", "response list reset before transition()", not bad, bad[0][3][0].node if bad else site,
                f"self.{resp_attr} is empty when transition() runs" if not bad else f"self.{resp_attr} still holds {len(bad[0][3][0].state.get(resp_attr)) if isinstance(bad[0][3][0].state.get(resp_attr), list) else 'its'} response(s) when transition() runs")
@@ -1589,7 +1846,7 @@ def run(chk):
     def dispatcher(awaited, pairs):
         m_ = type(empty_map)(empty_map) if not isinstance(empty_map, __import__("collections").defaultdict) else __import__("collections").defaultdict(empty_map.default_factory)
         m_.update({k: list(v) for k, v in awaited.items()})
-        return _Obj(name="self", **{**{k: _snap(v) for k, v in di_init.items()}, parked_attr: list(pairs), deferred_attr: m_})
+        return _table_fields(model.table, DI, _Obj(name="self", **{**{k: _snap(v) for k, v in di_init.items()}, parked_attr: list(pairs), deferred_attr: m_}))
 
     def hosts_of(me):
         """the keys of the awaited-remotes map of the stand-in dispatcher, as sorted text"""
@@ -1635,18 +1892,19 @@ def run(chk):
         chk.unknown("O12.1c", f"{cu.name} cannot be evaluated on representative states of the dispatcher: {sim_err_di}", cu)
     else:
         ok = r1 is None and len(got_actor) == 2 and len(created1) == 2
-        chk.ob("O12.1c", "every deferred start message of a joined remote gets a node actor", ok, cu,
-               f"2 start messages wait for {IP_A}: {len(created1)} node actor(s) created, {len(got_actor)} parked with their message" + (f", {r1} raised" if r1 else ""))
+        _sim_ob(chk, "O12.1c", "every deferred start message of a joined remote gets a node actor", ok, cu,
+                f"2 start messages wait for {IP_A}: {len(created1)} node actor(s) created, {len(got_actor)} parked with their message" + (f", {r1} raised" if r1 else ""), [t1])
         ok = r2 is None and sorted(id(p_[1]) for p_ in sent2) == sorted(id(m_) for m_ in (m0, m1)) \
             and all(_eq(tgt, "local node actor") if msg_ is m0 else any(tgt is c_ for c_ in created2) for tgt, msg_ in sent2)
-        chk.ob("O12.1c", "send_all_pending sends every pending start message", ok, cu,
-               f"the last awaited daemon joins: {len(sent2)} of 2 parked start messages sent, each to its node actor" if ok else
-               f"the last awaited daemon joins: sent {[(repr(t_), repr(m_)) for t_, m_ in sent2]}, expected the 2 parked messages, each once, to its own node actor" + (f"; {r2} raised" if r2 else ""))
+        _sim_ob(chk, "O12.1c", "send_all_pending sends every pending start message", ok, cu,
+                f"the last awaited daemon joins: {len(sent2)} of 2 parked start messages sent, each to its node actor" if ok else
+                f"the last awaited daemon joins: sent {[(repr(t_), repr(m_)) for t_, m_ in sent2]}, expected the 2 parked messages, each once, to its own node actor" + (f"; {r2} raised" if r2 else ""),
+                [t2] if len(sent2) < 2 else [])
         left_b = me1.fields[deferred_attr].get(IP_B)
         ok = r1 is None and r2 is None and hosts_of(me1) == [IP_B] and isinstance(left_b, list) and len(left_b) == 1 and left_b[0] is m3 and hosts2 == [] and not start_sends(t1)
-        chk.ob("O12.1c", "the entry of a joined remote is removed whenever it is present (guarded by membership only)", ok, cu,
-               f"after {IP_A} joined the awaited hosts are {hosts_of(me1)} (was {[IP_A, IP_B]}), start messages sent meanwhile: {len(start_sends(t1))}",
-               key=f"{_M}:Dispatcher.receiveMsg_ActorSystemConventionUpdate:del-guard")
+        _sim_ob(chk, "O12.1c", "the entry of a joined remote is removed whenever it is present (guarded by membership only)", ok, cu,
+                f"after {IP_A} joined the awaited hosts are {hosts_of(me1)} (was {[IP_A, IP_B]}), start messages sent meanwhile: {len(start_sends(t1))}",
+                [t1, t2] if not start_sends(t1) else [], key=f"{_M}:Dispatcher.receiveMsg_ActorSystemConventionUpdate:del-guard")
         if r3 is not None:
             chk.unknown("O12.1c", f"{cu.name} raises {r3} when a daemon joins that no start message waits for", cu)
         else:
@@ -1658,9 +1916,9 @@ def run(chk):
             chk.unknown("O12.1c", f"{cu.name} raises {r4} when a daemon joins after the start messages were sent", cu)
         else:
             ok = r2 is None and parked2 == [] and not start_sends(t4)
-            chk.ob("O12.1c", "the pending list is emptied once its messages were sent (no host is started twice)", ok, cu,
-                   "" if ok else f"after the start messages went out self.{parked_attr} still holds {len(parked2 or [])} pair(s); the next convention notification re-sends "
-                   f"{len(start_sends(t4))} StartNodes", key=f"{_M}:Dispatcher.send_all_pending:reset")
+            _sim_ob(chk, "O12.1c", "the pending list is emptied once its messages were sent (no host is started twice)", ok, cu,
+                    "" if ok else f"after the start messages went out self.{parked_attr} still holds {len(parked2 or [])} pair(s); the next convention notification re-sends "
+                    f"{len(start_sends(t4))} StartNodes", [t2] if not start_sends(t4) else [], key=f"{_M}:Dispatcher.send_all_pending:reset")
 
     # node actors are placed by capability ({"ip": <host>}): an actor system qualifies only if it DECLARES the required capability with the required value — a system that does
     # not declare it at all (the coordinator's own system: {"coordinator": True}) must not qualify, or the remote host's nodes are started on the coordinator
@@ -1805,7 +2063,7 @@ def run(chk):
 
     def handle(ci, handler, fields, msg, sender, fail_at=None):
         """the handler processes msg on a stand-in actor; fail_at: index of the recorded call that raises. Returns (trace, actor, name of the exception that escaped or None)"""
-        me = _Obj(name="self", **{k: _snap(v) for k, v in fields.items()})
+        me = _table_fields(model.table, ci, _Obj(name="self", **{k: _snap(v) for k, v in fields.items()}))
         sim = _Sim(model.table, ci, me, fail=(lambda ev: len(sim.trace) - 1 == fail_at) if fail_at is not None else None)
         escaped = None
         try:
@@ -1844,7 +2102,7 @@ def run(chk):
         failing = []
         for i in points:
             t_, _, esc_ = handle(NM, sn, nm_init, start_nodes_msg(True), RELAY, fail_at=i)
-            failing.append((t_ok[i], t_, esc_))
+            failing.append((t_ok[i], t_, esc_, i))
         sim_err = None
     except _Cannot as e:
         sim_err = str(e)
@@ -1854,15 +2112,22 @@ def run(chk):
         chk.unknown("O12.3", f"{sn.name}: no NodesStarted is sent for a start message on which nothing fails" + (f" ({esc_ok} raised)" if esc_ok else ""), sn)
     else:
         decorated = handler_guard(sn) == "no_retry"  # the decorator reports whatever escapes the handler to the sender (O9.1)
-        unreported = [(ev, esc_) for ev, t_, esc_ in failing
+        unreported = [(ev, esc_, _unknown_call(t_, after=i_)) for ev, t_, esc_, i_ in failing
                       if not any(_eq(e.args[0], REQUESTER) or _eq(e.args[0], RELAY) for _, e in sends_of(t_, "BenchmarkFailure")) and not (decorated and esc_ is not None)]
-        chk.ob("O12.3", "receiveMsg_StartNodes guarded", not unreported, unreported[0][0].node if unreported else sn,
-               f"{len(failing)} call(s) made to fail in turn: each failure is reported as BenchmarkFailure to the requester / the sender" if not unreported else
-               f"a failure of `{short(unreported[0][0].node, 60)}` is not reported as BenchmarkFailure to the requester / the sender"
-               + (f" ({unreported[0][1]} escapes the handler)" if unreported[0][1] else " (it is swallowed)"))
+        # what the handler does about the failure may happen inside a call the simulation could not follow: not a verdict then
+        doubtful = [x for x in unreported if x[2] is not None]
+        unreported = [x for x in unreported if x[2] is None]
+        if doubtful and not unreported:
+            chk.unknown("O12.3", f"{sn.name}: after a failure of `{short(doubtful[0][0].node, 50)}` the handler calls `{short(doubtful[0][2].node, 50)}`, a value the simulation does not know "
+                        "(whether the failure is reported there is not followed)", doubtful[0][2].node)
+        else:
+            chk.ob("O12.3", "receiveMsg_StartNodes guarded", not unreported, unreported[0][0].node if unreported else sn,
+                   f"{len(failing)} call(s) made to fail in turn: each failure is reported as BenchmarkFailure to the requester / the sender" if not unreported else
+                   f"a failure of `{short(unreported[0][0].node, 60)}` is not reported as BenchmarkFailure to the requester / the sender"
+                   + (f" ({unreported[0][1]} escapes the handler)" if unreported[0][1] else " (it is swallowed)"))
         engine = [i for i, e in enumerate(t_ok) if e.name == "start_engine"]
-        early = [ev for ev, t_, _ in failing if ev.name == "start_engine" and sends_of(t_, "NodesStarted")]
-        ok = bool(engine) and engine[0] < first_ack and not early and all(not sends_of(t_, "NodesStarted") for _, t_, _ in failing)
+        early = [ev for ev, t_, _, _ in failing if ev.name == "start_engine" and sends_of(t_, "NodesStarted")]
+        ok = bool(engine) and engine[0] < first_ack and not early and all(not sends_of(t_, "NodesStarted") for _, t_, _, _ in failing)
         if not engine:
             chk.unknown("O12.3", f"{sn.name}: no call start_engine() on the path that sends NodesStarted", sn)
         else:
@@ -1879,7 +2144,9 @@ def run(chk):
                        f"start message {'with' if with_reply_to else 'without'} reply_to: NodesStarted goes to {tgts} (expected: the {want})")
     # NodesStarted constructed nowhere else
     sn_closure = [fn for _, fn in model.method_closure(NM, sn)]
-    others = [n for n in source.package_calls(repo, "NodesStarted") if not any(source.enclosing_func(n) is fn for fn in sn_closure)]
+    # ... or a site that was SEEN to be evaluated while the handler ran on the stand-in actor (a routine reached through a table / a function of the module handed the actor)
+    seen_sites = {id(e.node) for t_, _ in (runs.values() if sim_err is None else []) for e in t_ if e.name == "NodesStarted"}
+    others = [n for n in source.package_calls(repo, "NodesStarted") if not any(source.enclosing_func(n) is fn for fn in sn_closure) and id(n) not in seen_sites]
     chk.ob("O12.3", "NodesStarted constructed only in receiveMsg_StartNodes", not others, others[0] if others else sn, f"{len(others)} other site(s)")
 
     # ---- O12.4 daemon departure ----------------------------------------------------------------------------------
@@ -1895,11 +2162,11 @@ def run(chk):
         rep6 = [e for _, e in sends_of(t6, "BenchmarkFailure") if any(_eq(e.args[0], w_) for w_ in want)]
         rep7 = [e for _, e in sends_of(t7, "BenchmarkFailure") if any(_eq(e.args[0], w_) for w_ in want)]
         ok = bool(rep5) and bool(rep6) and bool(rep7)
-        chk.ob("O12.4", "Dispatcher: departure -> send(start_sender, BenchmarkFailure)", ok, (rep5 or rep6)[0].node if (rep5 or rep6) else cu,
-               "a daemon that leaves before it has joined / after all daemons have joined is reported to the requester" if ok else
-               ("a daemon that leaves " + ("while its host is awaited" if not (rep5 and rep7) else "after all daemons have joined (its host may still be starting nodes)")
-                + f" is not reported: no send(<{', '.join('self.' + a for a in upstream_di)}>, BenchmarkFailure)" + (f"; {r5 or r6 or r7} raised" if (r5 or r6 or r7) else "")),
-               key=f"{_M}:Dispatcher.receiveMsg_ActorSystemConventionUpdate:departure")
+        _sim_ob(chk, "O12.4", "Dispatcher: departure -> send(start_sender, BenchmarkFailure)", ok, (rep5 or rep6)[0].node if (rep5 or rep6) else cu,
+                "a daemon that leaves before it has joined / after all daemons have joined is reported to the requester" if ok else
+                ("a daemon that leaves " + ("while its host is awaited" if not (rep5 and rep7) else "after all daemons have joined (its host may still be starting nodes)")
+                 + f" is not reported: no send(<{', '.join('self.' + a for a in upstream_di)}>, BenchmarkFailure)" + (f"; {r5 or r6 or r7} raised" if (r5 or r6 or r7) else "")),
+                [t_ for t_, rp_ in ((t5, rep5), (t6, rep6), (t7, rep7)) if not rp_], key=f"{_M}:Dispatcher.receiveMsg_ActorSystemConventionUpdate:departure")
 
     # ---- O12.5 stop order and once-only -----------------------------------------------------------------------------------
     chk.rule("O12.5", "stop_engine: launcher stop < flush(refresh) < store system metrics < store close < cleanup(preserve=configured flag) for every node config; "
@@ -2012,7 +2279,7 @@ def run(chk):
         h = model.table.method(NM, f"receiveMsg_{cname}") or model.table.method(NM, "receiveUnrecognizedMessage")
         if h is None:
             raise AnchorMissing(f"NodeMechanicActor: no handler for {cname}")
-        me = me_fields if isinstance(me_fields, _Obj) else _Obj(name="self", **{k: _snap(v) for k, v in me_fields.items()})
+        me = me_fields if isinstance(me_fields, _Obj) else _table_fields(model.table, NM, _Obj(name="self", **{k: _snap(v) for k, v in me_fields.items()}))
         sim = _Sim(model.table, NM, me, fail=(lambda ev: ev.name == fail_name) if fail_name else None)
         escaped = None
         try:
@@ -2053,24 +2320,31 @@ def run(chk):
                f"no NodesStopped for {', '.join(m_.name for m_ in others_ + [EXIT])}" if not stray else f"NodesStopped is sent when {stray[0][0]} is handled")
         ok = len(stops_in(tA)) == 1 and stops_in(tA)[0] < ackA[0][0] and len(ackA) == 1 and _eq(ackA[0][1].args[0], COORD)
         chk.ob("O12.5", "NodesStopped after stop_engine()", ok, ackA[0][1].node, f"stop_engine() is call #{stops_in(tA)[0] + 1}, NodesStopped goes to {[e.args[0] for _, e in ackA]} by call #{ackA[0][0] + 1}")
-        ok = bool(stops_in(tB)) and not sends_of(tB, "NodesStopped")
-        chk.ob("O12.5", "NodesStopped only when stop_engine() returned (not on its failure edge)", ok, (sends_of(tB, "NodesStopped") or ackA)[0][1].node,
-               "" if ok else "the confirmation is also sent on a path on which stop_engine() raised (finally / handler): the coordinator acknowledges EngineStopped for a host that did not stop",
-               key=f"{_M}:NodeMechanicActor.receiveUnrecognizedMessage:NodesStopped:normal-only")
+        if not stops_in(tB):
+            chk.unknown("O12.5", "stop_engine() is not called again when the handling of StopNodes is repeated with a failing stop_engine() (the simulation is not deterministic)", hA)
+        else:
+            ok = not sends_of(tB, "NodesStopped")
+            chk.ob("O12.5", "NodesStopped only when stop_engine() returned (not on its failure edge)", ok, (sends_of(tB, "NodesStopped") or ackA)[0][1].node,
+                   "" if ok else "the confirmation is also sent on a path on which stop_engine() raised (finally / handler): the coordinator acknowledges EngineStopped for a host that did not stop",
+                   key=f"{_M}:NodeMechanicActor.receiveUnrecognizedMessage:NodesStopped:normal-only")
         for what, me_, h_ in (("StopNodes", meB, hA), ("the exit request", meCf, hC)):
             ok = me_.fields.get(mech_attr) is MECH
             chk.ob("O12.5", "mechanic reference kept when stop_engine() failed (the exit request retries the stop)", ok, h_,
                    f"stop_engine() fails while {what} is handled: self.{mech_attr} is {'kept' if ok else 'dropped (' + repr(me_.fields.get(mech_attr)) + ')'}",
                    key=f"{_M}:NodeMechanicActor.receiveUnrecognizedMessage:clear:normal-only:{what}")
         ok = escA is None and meA.fields.get(mech_attr) is None
-        chk.ob("O12.5", "mechanic reference cleared after StopNodes", ok, ackA[0][1].node, f"self.{mech_attr} is {meA.fields.get(mech_attr)!r} after StopNodes was handled")
+        _sim_ob(chk, "O12.5", "mechanic reference cleared after StopNodes", ok, ackA[0][1].node, f"self.{mech_attr} is {meA.fields.get(mech_attr)!r} after StopNodes was handled", [tA])
         failures = sends_of(tD, "BenchmarkFailure") + sends_of(tN, "BenchmarkFailure")
         ok = not stops_in(tD) and not stops_in(tN) and len(stops_in(tC)) == 1 and meC.fields.get(mech_attr) is None and escD is None and escN is None and not failures
-        chk.ob("O12.5", "stop on exit request guarded by the mechanic reference (no second stop)", ok, failures[0][1].node if failures else hC,
-               f"exit request: {len(stops_in(tC))} stop with a mechanic, {len(stops_in(tD))} after StopNodes, {len(stops_in(tN))} without one"
-               + (f"; {escD or escN} escapes" if (escD or escN) else "") + ("; the request fails without a mechanic (a BenchmarkFailure is reported for a host that stopped cleanly)" if failures else ""))
+        located = bool(stops_in(tD) or stops_in(tN) or len(stops_in(tC)) > 1 or failures or escD or escN)  # a second stop / a failing request was SEEN; else something is missing
+        _sim_ob(chk, "O12.5", "stop on exit request guarded by the mechanic reference (no second stop)", ok, failures[0][1].node if failures else hC,
+                f"exit request: {len(stops_in(tC))} stop with a mechanic, {len(stops_in(tD))} after StopNodes, {len(stops_in(tN))} without one"
+                + (f"; {escD or escN} escapes" if (escD or escN) else "") + ("; the request fails without a mechanic (a BenchmarkFailure is reported for a host that stopped cleanly)" if failures else ""),
+                [] if located else [tC])
     nm_funcs = {id(fn) for fn in ast.walk(NM.node) if isinstance(fn, source.FUNC_TYPES)}
-    nsx = [n for n in source.package_calls(repo, "NodesStopped") if id(source.enclosing_func(n)) not in nm_funcs]
+    # ... or in a routine that was SEEN to run on behalf of the node actor while it handled StopNodes (a function of the module that is handed the actor)
+    seen_stop_sites = {id(e.node) for e in (tA if sim_err5 is None else []) if e.name == "NodesStopped"}
+    nsx = [n for n in source.package_calls(repo, "NodesStopped") if id(source.enclosing_func(n)) not in nm_funcs and id(n) not in seen_stop_sites]
     chk.ob("O12.5", "NodesStopped constructed only in the node actor", not nsx, nsx[0] if nsx else ur, "")
 
     from rules.C13 import cleanup_isolation_rule
@@ -2366,6 +2640,64 @@ def run(chk):
 
 from sa.selftest import V  # noqa: E402
 
+# hardening round 3: texts shared by the variants below
+_H3_CHAIN = ("            if isinstance(msg, ResetRelativeTime) and self.mechanic:\n                self.mechanic.reset_relative_time()\n"
+             "            elif isinstance(msg, thespian.actors.WakeupMessage) and self.mechanic:\n                self.mechanic.flush_metrics()\n"
+             "                self.wakeupAfter(METRIC_FLUSH_INTERVAL_SECONDS)\n            elif isinstance(msg, StopNodes):\n                self.mechanic.stop_engine()\n"
+             "                self.send(sender, NodesStopped())\n                self.mechanic = None\n            elif isinstance(msg, thespian.actors.ActorExitRequest):\n"
+             "                if self.mechanic:\n                    self.mechanic.stop_engine()\n                    self.mechanic = None\n")
+_H3_LOOP = ("            for msg_type, handler in self._message_handlers():\n                if isinstance(msg, msg_type):\n                    handler(msg, sender)\n                    break\n")
+_H3_ANCHOR = "    def _failure_target(self, msg, sender):"
+_H3_ROUTINES = ("    def _on_reset_relative_time(self, msg, sender):\n        if self.mechanic:\n            self.mechanic.reset_relative_time()\n\n"
+                "    def _on_wakeup(self, msg, sender):\n        if self.mechanic:\n            self.mechanic.flush_metrics()\n            self.wakeupAfter(METRIC_FLUSH_INTERVAL_SECONDS)\n\n"
+                "    def _on_stop_nodes(self, msg, sender):\n        self.mechanic.stop_engine()\n        self.send(sender, NodesStopped())\n        self.mechanic = None\n\n"
+                "    def _on_actor_exit_request(self, msg, sender):\n        if self.mechanic:\n            self.mechanic.stop_engine()\n            self.mechanic = None\n\n")
+_H3_TABLE = ("    def _message_handlers(self):\n        return (\n            (ResetRelativeTime, self._on_reset_relative_time),\n            (thespian.actors.WakeupMessage, self._on_wakeup),\n"
+             "            (StopNodes, self._on_stop_nodes),\n            (thespian.actors.ActorExitRequest, self._on_actor_exit_request),\n        )\n\n")
+_H3_MODFUNC_CHAIN = ("            if isinstance(msg, StopNodes):\n                _stop_nodes(self, confirm_to=sender)\n            elif isinstance(msg, thespian.actors.ActorExitRequest):\n"
+                     "                if self.mechanic:\n                    _stop_nodes(self)\n            elif self.mechanic and isinstance(msg, ResetRelativeTime):\n"
+                     "                self.mechanic.reset_relative_time()\n            elif self.mechanic and isinstance(msg, thespian.actors.WakeupMessage):\n"
+                     "                self.mechanic.flush_metrics()\n                self.wakeupAfter(METRIC_FLUSH_INTERVAL_SECONDS)\n")
+_H3_CHILD_EXIT = ("        if self.is_current_status_expected([\"cluster_stopping\", \"cluster_stopped\"]):\n"
+                  "            self.logger.info(\"Child actor exited while engine is stopping or stopped: [%s]\", msg)\n            return\n"
+                  "        failmsg = \"Child actor exited with [%s] while in status [%s].\" % (msg, self.status)\n        self.logger.error(failmsg)\n"
+                  "        self.send(self.race_control, actor.BenchmarkFailure(failmsg))\n")
+_H3_CHILD_EXIT_ROUTINES = ("    def _child_exit_expected(self, msg):\n        self.logger.info(\"Child actor exited while engine is stopping or stopped: [%s]\", msg)\n\n"
+                           "    def _child_exit_unexpected(self, msg):\n        failmsg = \"Child actor exited with [%s] while in status [%s].\" % (msg, self.status)\n"
+                           "        self.logger.error(failmsg)\n        self.send(self.race_control, actor.BenchmarkFailure(failmsg))\n")
+_H3_CONV_BODY = ('        if not convmsg.remoteAdded:\n'
+                 '            self.logger.warning("Remote Rally node [%s] exited during NodeMechanicActor startup process.", convmsg.remoteAdminAddress)\n'
+                 '            self.send(\n'
+                 '                self.start_sender,\n'
+                 '                actor.BenchmarkFailure("Remote Rally node [%s] has been shutdown prematurely." % convmsg.remoteAdminAddress),\n'
+                 '            )\n'
+                 '        else:\n'
+                 '            remote_ip = convmsg.remoteCapabilities.get("ip", None)\n'
+                 '            self.logger.info("Remote Rally node [%s] has started.", remote_ip)\n'
+                 '\n'
+                 '            for eachmsg in self.remotes[remote_ip]:\n'
+                 '                self.pending.append((self.createActor(NodeMechanicActor, targetActorRequirements={"ip": remote_ip}), eachmsg))\n'
+                 '            if remote_ip in self.remotes:\n'
+                 '                del self.remotes[remote_ip]\n'
+                 '            if not self.remotes:\n'
+                 '                # stay subscribed: a remote node that leaves while its host is still starting nodes needs to be reported as well\n'
+                 '                self.send_all_pending()\n')
+_H3_CONV_ROUTINES = ('    def _remote_left(self, convmsg):\n'
+                     '        self.logger.warning("Remote Rally node [%s] exited during NodeMechanicActor startup process.", convmsg.remoteAdminAddress)\n'
+                     '        self.send(\n'
+                     '            self.start_sender,\n'
+                     '            actor.BenchmarkFailure("Remote Rally node [%s] has been shutdown prematurely." % convmsg.remoteAdminAddress),\n'
+                     '        )\n'
+                     '\n'
+                     '    def _remote_joined(self, convmsg):\n'
+                     '        remote_ip = convmsg.remoteCapabilities.get("ip", None)\n'
+                     '        self.logger.info("Remote Rally node [%s] has started.", remote_ip)\n'
+                     '        new_actor = lambda: self.createActor(NodeMechanicActor, targetActorRequirements={"ip": remote_ip})\n'
+                     '        self.pending.extend((new_actor(), eachmsg) for eachmsg in self.remotes.pop(remote_ip, ()))\n'
+                     '        if not self.remotes:\n'
+                     '            # stay subscribed: a remote node that leaves while its host is still starting nodes needs to be reported as well\n'
+                     '            self.send_all_pending()\n')
+
 VARIANTS = [
     V("F3: address called instead of send", "break", _M, "            self.send(\n                self.start_sender,\n                actor.BenchmarkFailure(\"Remote Rally node [%s] has been shutdown prematurely.\" % convmsg.remoteAdminAddress),\n            )",
       "            self.start_sender(actor.BenchmarkFailure(\"Remote Rally node [%s] has been shutdown prematurely.\" % convmsg.remoteAdminAddress))", "O12.4"),
@@ -2596,4 +2928,72 @@ VARIANTS = [
        "            self.stop(nodes, None)\n            raise\n", "                nodes.append(node)\n        except BaseException:\n            self._roll_back(nodes)\n            raise\n", "O12.7"),
      V("", "break", _L, "    def _docker_compose(self, compose_config, cmd):",
        "    def _roll_back(self, started, force=False):\n        if force:\n            self.stop(started, None)\n\n    def _docker_compose(self, compose_config, cmd):")],
+    # ---- hardening round 3: the work of a handler is looked up (table of bound methods / names, dict keyed by the class, match statement, lambdas, functions of the module handed
+    # the actor) instead of being spelt out in an if-chain. The simulation follows routines that are VALUES; a negative verdict drawn from a trace in which an unknown value was
+    # called is "not recognised".
+    [V("H3: isinstance chain replaced by an ordered table of (message type, bound handler) returned by a helper", "keep", _M, _H3_CHAIN, _H3_LOOP),
+     V("", "keep", _M, _H3_ANCHOR, _H3_ROUTINES + _H3_TABLE + _H3_ANCHOR)],
+    [V("H3: table of bound handlers, the exit-request handler stops without looking at the mechanic reference", "break", _M, _H3_CHAIN, _H3_LOOP, "O12.5"),
+     V("", "break", _M, _H3_ANCHOR, _H3_ROUTINES.replace("    def _on_actor_exit_request(self, msg, sender):\n        if self.mechanic:\n            self.mechanic.stop_engine()\n            self.mechanic = None\n",
+                                                         "    def _on_actor_exit_request(self, msg, sender):\n        self.mechanic.stop_engine()\n        self.mechanic = None\n")
+       + _H3_TABLE + _H3_ANCHOR)],
+    [V("H3: table of bound handlers, the StopNodes handler confirms before it stops the nodes", "break", _M, _H3_CHAIN, _H3_LOOP, "O12.5"),
+     V("", "break", _M, _H3_ANCHOR, _H3_ROUTINES.replace("        self.mechanic.stop_engine()\n        self.send(sender, NodesStopped())\n", "        self.send(sender, NodesStopped())\n        self.mechanic.stop_engine()\n")
+       + _H3_TABLE + _H3_ANCHOR)],
+    [V("H3: dict keyed by the class of the message, looked up with .get(type(msg))", "keep", _M, _H3_CHAIN,
+       "            handlers = {\n                ResetRelativeTime: self._on_reset_relative_time,\n                thespian.actors.WakeupMessage: self._on_wakeup,\n"
+       "                StopNodes: self._on_stop_nodes,\n                thespian.actors.ActorExitRequest: self._on_actor_exit_request,\n            }\n"
+       "            handler = handlers.get(type(msg))\n            if handler is not None:\n                handler(msg, sender)\n"),
+     V("", "keep", _M, _H3_ANCHOR, _H3_ROUTINES + _H3_ANCHOR)],
+    V("H3: match statement over the class of the message", "keep", _M, _H3_CHAIN,
+      "            match msg:\n                case ResetRelativeTime() if self.mechanic:\n                    self.mechanic.reset_relative_time()\n"
+      "                case thespian.actors.WakeupMessage() if self.mechanic:\n                    self.mechanic.flush_metrics()\n                    self.wakeupAfter(METRIC_FLUSH_INTERVAL_SECONDS)\n"
+      "                case StopNodes():\n                    self.mechanic.stop_engine()\n                    self.send(sender, NodesStopped())\n                    self.mechanic = None\n"
+      "                case thespian.actors.ActorExitRequest():\n                    if self.mechanic:\n                        self.mechanic.stop_engine()\n                        self.mechanic = None\n"),
+    V("H3: match statement, the StopNodes case keeps the mechanic reference (the exit request stops the nodes again)", "break", _M, _H3_CHAIN,
+      "            match msg:\n                case ResetRelativeTime() if self.mechanic:\n                    self.mechanic.reset_relative_time()\n"
+      "                case thespian.actors.WakeupMessage() if self.mechanic:\n                    self.mechanic.flush_metrics()\n                    self.wakeupAfter(METRIC_FLUSH_INTERVAL_SECONDS)\n"
+      "                case StopNodes():\n                    self.mechanic.stop_engine()\n                    self.send(sender, NodesStopped())\n"
+      "                case thespian.actors.ActorExitRequest():\n                    if self.mechanic:\n                        self.mechanic.stop_engine()\n                        self.mechanic = None\n", "O12.5"),
+    [V("H3: table of (message type, method name) at module level, resolved with getattr", "keep", _M, _H3_CHAIN,
+       "            for msg_type, handler_name in _NODE_MESSAGE_HANDLERS:\n                if isinstance(msg, msg_type):\n                    getattr(self, handler_name)(msg, sender)\n                    break\n"),
+     V("", "keep", _M, _H3_ANCHOR, _H3_ROUTINES + _H3_ANCHOR),
+     V("", "keep", _M, "class NodeMechanicActor(actor.RallyActor):\n",
+       "_NODE_MESSAGE_HANDLERS = (\n    (ResetRelativeTime, \"_on_reset_relative_time\"),\n    (thespian.actors.WakeupMessage, \"_on_wakeup\"),\n    (StopNodes, \"_on_stop_nodes\"),\n"
+       "    (thespian.actors.ActorExitRequest, \"_on_actor_exit_request\"),\n)\n\n\nclass NodeMechanicActor(actor.RallyActor):\n")],
+    [V("H3: lambdas and a local function in a table, the first match taken with next(<generator>)", "keep", _M, _H3_CHAIN,
+       "            def stop_nodes():\n                self.mechanic.stop_engine()\n                self.send(sender, NodesStopped())\n                self.mechanic = None\n\n"
+       "            actions = [\n                (ResetRelativeTime, lambda: self.mechanic and self.mechanic.reset_relative_time()),\n"
+       "                (thespian.actors.WakeupMessage, lambda: self.mechanic and self._on_wakeup(msg, sender)),\n                (StopNodes, stop_nodes),\n"
+       "                (thespian.actors.ActorExitRequest, lambda: self._on_actor_exit_request(msg, sender)),\n            ]\n"
+       "            action = next((a for t, a in actions if isinstance(msg, t)), None)\n            if action:\n                action()\n"),
+     V("", "keep", _M, _H3_ANCHOR, _H3_ROUTINES + _H3_ANCHOR)],
+    [V("H3: stopping and confirming moved into a function of the module that is handed the actor", "keep", _M, _H3_CHAIN, _H3_MODFUNC_CHAIN),
+     V("", "keep", _M, "class NodeMechanicActor(actor.RallyActor):\n",
+       "def _stop_nodes(node_actor, confirm_to=None):\n    node_actor.mechanic.stop_engine()\n    if confirm_to is not None:\n        node_actor.send(confirm_to, NodesStopped())\n"
+       "    node_actor.mechanic = None\n\n\nclass NodeMechanicActor(actor.RallyActor):\n")],
+    [V("H3: the module-level stop function confirms in a finally block", "break", _M, _H3_CHAIN, _H3_MODFUNC_CHAIN, "O12.5"),
+     V("", "break", _M, "class NodeMechanicActor(actor.RallyActor):\n",
+       "def _stop_nodes(node_actor, confirm_to=None):\n    try:\n        node_actor.mechanic.stop_engine()\n        node_actor.mechanic = None\n    finally:\n        if confirm_to is not None:\n"
+       "            node_actor.send(confirm_to, NodesStopped())\n\n\nclass NodeMechanicActor(actor.RallyActor):\n")],
+    V("H3: reaction to an exited child looked up by status in a dict of bound methods", "keep", _M, _H3_CHILD_EXIT,
+      "        benign = dict.fromkeys((\"cluster_stopping\", \"cluster_stopped\"), self._child_exit_expected)\n        benign.get(self.status, self._child_exit_unexpected)(msg)\n\n" + _H3_CHILD_EXIT_ROUTINES),
+    V("H3: the status table treats an exit while the nodes are starting as expected", "break", _M, _H3_CHILD_EXIT,
+      "        benign = {s: self._child_exit_expected for s in (\"starting\", \"cluster_stopping\", \"cluster_stopped\")}\n        benign.get(self.status, self._child_exit_unexpected)(msg)\n\n"
+      + _H3_CHILD_EXIT_ROUTINES, "O12.4c"),
+    V("H3: reaction to an exited child taken from a table the simulation cannot evaluate (not recognised, never a verdict)", "break", _M, _H3_CHILD_EXIT,
+      "        if self.status == \"starting\":\n            return\n        actor.CHILD_EXIT_REACTIONS.get(self.status, actor.report_child_exit)(self, msg)\n", "O12.4c"),
+    V("H3: convention update dispatched on remoteAdded through a dict of bound methods, node actors created by a lambda", "keep", _M, _H3_CONV_BODY,
+      "        {True: self._remote_joined, False: self._remote_left}[bool(convmsg.remoteAdded)](convmsg)\n\n" + _H3_CONV_ROUTINES),
+    V("H3: the departure routine of the dict dispatch only logs", "break", _M, _H3_CONV_BODY,
+      "        {True: self._remote_joined, False: self._remote_left}[bool(convmsg.remoteAdded)](convmsg)\n\n"
+      + _H3_CONV_ROUTINES.replace("        self.send(\n            self.start_sender,\n            actor.BenchmarkFailure(\"Remote Rally node [%s] has been shutdown prematurely.\" % convmsg.remoteAdminAddress),\n        )\n", ""),
+      "O12.4"),
+    [V("H3: failure reporting of StartNodes through a local function defined in front of the try", "keep", _M,
+       "        try:\n            self.host = msg.ip\n            self.reply_to = getattr(msg, \"reply_to\", sender)\n",
+       "        def report_failure():\n            _, ex_value, _ = sys.exc_info()\n            self.send(getattr(msg, \"reply_to\", sender), actor.BenchmarkFailure(ex_value, traceback.format_exc()))\n\n"
+       "        try:\n            self.host = msg.ip\n            self.reply_to = getattr(msg, \"reply_to\", sender)\n"),
+     V("", "keep", _M, "            self.logger.exception(\"Cannot process message [%s]\", msg)\n            # avoid \"can't pickle traceback objects\"\n            _, ex_value, _ = sys.exc_info()\n"
+       "            self.send(getattr(msg, \"reply_to\", sender), actor.BenchmarkFailure(ex_value, traceback.format_exc()))\n",
+       "            self.logger.exception(\"Cannot process message [%s]\", msg)\n            report_failure()\n")],
 ]
